@@ -1,0 +1,10 @@
+//go:build !verif
+
+// Package verifhook provides named yield points for the verification
+// harness. Without the "verif" build tag every call is an empty,
+// inlined function.
+package verifhook
+
+// At marks a yield point. It does nothing unless the package is built
+// with the "verif" tag.
+func At(string) {}
